@@ -762,14 +762,16 @@ pub fn signed_bitmessage_to_buf(
     }
 
     // Advance past answer and authority records together.
-    let answer_authority_count = (counts.answers + counts.authorities) as usize;
+    let answer_authority_count = counts.answers as usize + counts.authorities as usize;
     let (_, _, sig) = Message::read_records(
         &mut decoder,
         answer_authority_count,
         false,
         metadata.op_code,
     )?;
-    debug_assert!(sig.is_none());
+    if sig.is_some() {
+        return Err(ProtoError::from("TSIG record outside the additional section"));
+    }
 
     // Advance past additional records, up to the final TSIG record.
     let (_, _, sig) = Message::read_records(
@@ -778,7 +780,9 @@ pub fn signed_bitmessage_to_buf(
         true,
         metadata.op_code,
     )?;
-    debug_assert!(sig.is_none());
+    if sig.is_some() {
+        return Err(ProtoError::from("TSIG record before the end of the additional section"));
+    }
     // Note the position of the decoder ahead of the final additional data TSIG record.
     let end_data = message.len() - decoder.len();
 
